@@ -716,6 +716,9 @@ def normalize(tree, relpath, digest=None):
         local_known = {q.rsplit(".", 1)[-1] for q in ref}
         tree._relpath = relpath
         st = inline.inline_new_helpers(tree, ref, local_known)
+        np_ = inline.inline_new_properties(tree, ref, known)
+        if np_:
+            st["inlined"] = st.get("inlined", 0) + np_
         if st.get("inlined"):
             tree = _nf(tree)
             notes["inlined"] = st
